@@ -19,6 +19,7 @@ func main() {
 	repo := flag.String("repo", "/repo", "repository root")
 	verif := flag.String("verif", "/verif", "verif root")
 	dump := flag.String("dump", "", "debug: dump engine facts (effects|...) and exit")
+	noev := flag.Bool("noevidence", false, "do not write the evidence file (used by the mutation self-test on scratch copies)")
 	flag.Parse()
 	if t := os.Getenv("VERIF_TIER"); t == "quick" || t == "thorough" {
 		if !isFlagSet("tier") {
@@ -63,6 +64,7 @@ func main() {
 		for _, r := range spec.Rules {
 			r.Run(p, l, *tier)
 		}
+		l.NoEvidence = *noev
 		code = l.Finish(p, *tier, seed, start, *verif, spec.Explanation, spec.Assumptions, nil)
 	}()
 	os.Exit(code)
